@@ -14,6 +14,7 @@ Line protocol of the C20 loop models (`term <op> …`):
   nslive nlive [id;logP;logL0;evalL;pop,…]       NestedSampler.populate_live_points
   inslive target [[id;0|1,…],…]                  ImportanceNestedSampler.populate_live_points
   viol kwargs | viol attrs                       violations of the generated interface tables
+  viol late | viol upfront                       options tested by raise sites reachable only late / up front
 -/
 namespace NessaiVerif.Driver.Term
 open NessaiVerif NessaiVerif.Parse NessaiVerif.Term
@@ -147,6 +148,8 @@ def handle (toks : List String) : String :=
       | .spin st => s!"spin n={st.n} used={st.used}"
     | _, _ => "bad-op"
   | ["viol", "kwargs"] => showTriples (kwViolations Gen.Term.callSites)
+  | ["viol", "late"] => showList id (lateOptions Gen.Term.raiseSites).eraseDups
+  | ["viol", "upfront"] => showList id (upfrontOptions Gen.Term.raiseSites).eraseDups
   | ["viol", "attrs"] => showTriples (attrViolations Gen.Term.definedAttrs Gen.Term.attrReads)
   | _ => "bad-op"
 
